@@ -80,6 +80,16 @@ def _key(c):
                                                    'periodic', 'pool') if k in c)
 
 
+def _c05_reference(args):
+    cfg, d = args
+    return ckpt.check_config(cfg, d)
+
+
+def _c05_unsliced(args):
+    cfg, runkw = args
+    return ckpt.unsliced(cfg, runkw)
+
+
 def check_c05(prop, tier, seed):
     rep = common.Report(prop, tier, seed)
     scratch = common.scratch('c05_')
@@ -87,11 +97,34 @@ def check_c05(prop, tier, seed):
         model_check_checkpoint(rep, tier, scratch, want=('tr3', 'trreal', 'norng', 'eeupd'))
         rnd = random.Random(seed)
         total_b = 0
-        for ci, cfg in enumerate(c05_matrix(seed, tier)):
+        matrix = c05_matrix(seed, tier)
+        dirs = []
+        for ci in range(len(matrix)):
             d = os.path.join(scratch, 'cfg%d' % ci)
             os.makedirs(d)
-            recs, final, runkw, jobs = ckpt.check_config(cfg, d)
-            results = common.pmap(ckpt.verify_boundary, jobs)
+            dirs.append(d)
+        # phase 1: all sliced reference runs in parallel; phase 2: every boundary of every configuration
+        refs = common.pmap(_c05_reference, list(zip(matrix, dirs)))
+        alljobs, owner = [], []
+        for ci, (recs, final, runkw, jobs) in enumerate(refs):
+            alljobs += jobs
+            owner += [ci] * len(jobs)
+        allres = common.pmap(ckpt.verify_boundary, alljobs)
+        hjobs_all, howner = [], []
+        for ci, cfg in enumerate(matrix):
+            nb = len(refs[ci][0])
+            hj = []
+            for h in range(2 if tier == 'quick' else 6):
+                ks = sorted(rnd.sample(range(1, max(2, nb)), min(3, max(1, nb - 1))))
+                hj.append((cfg, refs[ci][2], ks, [rnd.random() < 0.7 for _ in ks], dirs[ci]))
+            hjobs_all += hj
+            howner += [ci] * len(hj)
+        uns = common.pmap(_c05_unsliced, [(cfg, refs[ci][2]) for ci, cfg in enumerate(matrix)])
+        hres = common.pmap(ckpt.sliced_history, hjobs_all)
+        for ci, cfg in enumerate(matrix):
+            d = dirs[ci]
+            recs, final, runkw, jobs = refs[ci]
+            results = [r for r, o in zip(allres, owner) if o == ci]
             key = _key(cfg)
             errs = [r for r in results if r['error']]
             if errs:
@@ -114,14 +147,9 @@ def check_c05(prop, tier, seed):
                               dict(cfg=cfg, runkw=runkw, boundary=k, failing=fails[:10]))
             else:
                 rep.coverage['traces_validated_against_impl'] += 1
-            # whole-run equalities: uninterrupted (with and without file) and multi-stop histories
-            nb = len(recs)
-            finals = [('uninterrupted,no file', ckpt.unsliced(cfg, runkw))]
-            hjobs = []
-            for h in range(2 if tier == 'quick' else 6):
-                ks = sorted(rnd.sample(range(1, max(2, nb)), min(3, max(1, nb - 1))))
-                hjobs.append((cfg, runkw, ks, [rnd.random() < 0.7 for _ in ks], d))
-            for hj, out in zip(hjobs, common.pmap(ckpt.sliced_history, hjobs)):
+            finals = [('uninterrupted,no file', uns[ci])]
+            hjobs = [hj for hj, o in zip(hjobs_all, howner) if o == ci]
+            for hj, out in zip(hjobs, [r for r, o in zip(hres, howner) if o == ci]):
                 if out['error']:
                     rep.violation('%s:history-raises' % key, 'history %s raises %s' % (hj[2:4], out['error']),
                                   dict(cfg=cfg, stops=hj[2], resume=hj[3]))
